@@ -284,8 +284,9 @@ func c18Plans(seed uint64, quick bool) []c18Plan {
 	// own block: the failed yield must not hand the host a fresh retry budget
 	for _, rt := range []int{1, 2, 3} {
 		for _, ecount := range []int{1, 2} {
-			for _, skew := range []int{0, 60, 120, -3} {
-				if quick && (rt == 1 || skew == -3) {
+			// the equipment starts late, so that the host has had NAKed transmissions of its own when the contention comes
+			for _, skew := range []int{30, 60, 90, 0} {
+				if quick && (rt == 1 || skew == 0) {
 					continue
 				}
 				hf := rule(roleH, e4mitm.OnBlock, 1, e4mitm.OpFlip)
@@ -897,14 +898,38 @@ func c18Judge(env *fw.Env, p *c18Plan, sc *c18Scenario, final bool) {
 				f++
 			}
 		}
-		enqLimit[sc.side[role]] = limit * (f + 1)
+		// (only a send call that FOLLOWS a failed one can be squeezed in: at most len-1 of them)
+		enqLimit[sc.side[role]] = limit * (min(f, max(len(sc.sends[role])-1, 0)) + 1)
 	}
 	flagged := false
+	var granted [2]bool // by side: this end has emitted EOT and not yet answered the block it asked for
 	for i, ev := range sc.hist {
 		// An end can only have finished as many blocks as it was handed ACK characters. While it has
 		// emitted more distinct blocks than that, its current block is certainly still unacknowledged.
 		if ev.Fwd == 1 && ev.Out == e4.ACK && (ev.Kind == e4mitm.OnENQ || ev.Kind == e4mitm.OnEOT || ev.Kind == e4mitm.OnACK || ev.Kind == e4mitm.OnNAK) {
 			st[1-ev.From].acks++
+		}
+		// A block transmission that reaches an end which has NOT granted the line (a collision: late or delayed
+		// characters made both ends transmit) is a run of arbitrary characters to that end: every 06 in it may be
+		// taken as the ACK it is waiting for. (Seen once in a thorough run: the equipment went on to its next block
+		// on a 06 inside the host's colliding block.) Delivery order is only known for undelayed forwards.
+		if ev.Kind == e4mitm.OnBlock && ev.Fwd > 0 && (!granted[1-ev.From] || strings.Contains(ev.Fault, "delay")) {
+			n := bytes.Count(ev.Raw, []byte{e4.ACK})
+			if ev.Fault != "" {
+				n++ // a changed character may have become one
+			}
+			st[1-ev.From].acks += n
+			if n > 0 {
+				env.Event("colliding_blocks_with_ack_characters", 1)
+			}
+		}
+		switch ev.Kind {
+		case "OPEN":
+			granted = [2]bool{}
+		case e4mitm.OnEOT:
+			granted[ev.From] = true
+		case e4mitm.OnACK, e4mitm.OnNAK:
+			granted[ev.From] = false
 		}
 		switch ev.Kind {
 		case "OPEN":
